@@ -31,6 +31,7 @@ e07ea76 C18
 7acf6c7 C18
 f5b320c C18
 ddb7a7f C18
+5353f3f C18
 LIST
 mv $OUT.tmp $OUT
 python3 lib/seeded_meta.py >/dev/null
